@@ -581,7 +581,25 @@ func expiredRule(r *Run, fn *ssa.Function, errName, prefix string) {
 		return false, false
 	}
 	starts := edgesEstablishing(fn, expired)
-	r.mustPass(prefix+":expired-deadline-returns-timeout:"+fn.Name(), "when the deadline has already passed the call returns "+errName, fn, nil, starts, w.isException(errName), nil, nil, "Exception("+errName+") on every path from remaining<=0")
+	isTimeoutOrClosed := func(i ssa.Instruction) bool {
+		return w.isException(errName)(i) || w.isException("ErrEOF")(i) || w.isException("ErrConnClosed")(i)
+	}
+	r.mustPass(prefix+":expired-deadline-returns-timeout:"+fn.Name(), "when the deadline has already passed the call returns "+errName+" (or the closed-state error of a closed connection) without waiting", fn, nil, starts, isTimeoutOrClosed, nil, nil, "Exception("+errName+") on every path from remaining<=0")
+	if errName == "ErrReadTimeout" {
+		// ... and on the read side the closed state wins: the timeout answer is given only after the closing state was looked at
+		px := protoEffects(w)
+		ss := &Search{Fn: fn, Stop: func(i ssa.Instruction) bool { return px.May(i, "readClosing") }}
+		var wit *Witness
+		for _, site := range ss.Reachable(starts, w.isException(errName)) {
+			s2 := &Search{Fn: fn, Stop: func(i ssa.Instruction) bool { return px.May(i, "readClosing") }}
+			if wt := s2.Find(starts, isIns(site), false); wt != nil && wit == nil {
+				wit = wt
+			}
+			r.Visited += s2.Visited
+		}
+		r.Visited += ss.Visited
+		r.obW(prefix+":expired-deadline-does-not-hide-close:"+fn.Name(), "with a read deadline that has already passed, a Reader call on a closed connection still gets the closed-state error: the timeout answer is given only after the closing state was read", fn, nil, wit, "status(closing) is read before "+errName+" is returned on the expired edge")
+	}
 }
 
 // closeWakeRules: after a successful closeBy both triggers get a non-nil error, before the close callbacks and before
